@@ -223,8 +223,9 @@ bool Heightmap::recurse(Evaluator* e, const Tape::Handle& tape,
     Interval out = result.first;
 
     bool ret = true;
-    // If strictly negative, fill up the block and return
-    if (out.isFilled())
+    // If strictly negative (and certainly not NaN, which does not count as
+    // inside when sampled), fill up the block and return
+    if (out.isSafe() && out.isFilled())
     {
         fill(e, tape, r);
     }
